@@ -1,19 +1,312 @@
+/-
+C20 — number parsing, alignment and byte-order helpers satisfy their contracts.
+
+Only property theorems and non-vacuity examples live here; helper lemmas are in Proofs/Misc.lean.
+Theorems about `Generated.PyFuns.*` are statements about bodies re-translated from /repo's
+Python source on every run; theorems about `Misc.*` are about the hand model that the C20
+correspondence sweep ties to the implementation.
+-/
 import SpsdkVerif.Generated.PyFuns
 import SpsdkVerif.Model.Misc
+import SpsdkVerif.Proofs.Misc
 
 namespace SpsdkVerif.C20
-open SpsdkVerif SpsdkVerif.Generated.PyFuns
+open SpsdkVerif SpsdkVerif.Generated.PyFuns SpsdkVerif.Misc
 
+/-! ## Generated integer helpers -/
+
+/-- `align` refuses exactly a non-positive alignment or a negative number, with an SPSDK error. -/
 theorem align_err (n a : Int) : (a ≤ 0 ∨ n < 0) ↔ align n a = .error .spsdk := by
   unfold align
-  constructor
-  · intro h; simp [h]
-  · intro h
-    by_cases h1 : a ≤ 0
-    · exact Or.inl h1
-    · by_cases h2 : n < 0
-      · exact Or.inr h2
-      · simp [h1, h2] at h
-        split at h <;> simp at h
+  by_cases h : a ≤ 0 ∨ n < 0
+  · simp [h]
+  · have h3 : ¬ a = 0 := by omega
+    simp [h, h3]
+
+/-- otherwise it returns a multiple of the alignment, not below the input and less than one alignment above -/
+theorem align_spec (n a : Int) (ha : 0 < a) (hn : 0 ≤ n) :
+    ∃ r, align n a = .ok r ∧ a ∣ r ∧ n ≤ r ∧ r < n + a := by
+  have h1 : ¬ a ≤ 0 := by omega
+  have h2 : ¬ n < 0 := by omega
+  have h3 : ¬ a = 0 := by omega
+  refine ⟨(n + (a - 1)) / a * a, ?_, Int.dvd_mul_left _ _, ?_, ?_⟩
+  · simp [align, h1, h2, h3, pyFloorDiv, Int.fdiv_eq_ediv_of_nonneg _ (Int.le_of_lt ha)]
+  all_goals
+    have e := Int.emod_add_mul_ediv (n + (a-1)) a
+    have l := Int.emod_lt_of_pos (n + (a-1)) ha
+    have g := Int.emod_nonneg (n + (a-1)) (Int.ne_of_gt ha)
+    rw [Int.mul_comm] at e
+    omega
+
+/-- … which is the smallest such value. -/
+theorem align_least (n a m : Int) (ha : 0 < a) (hn : 0 ≤ n) (hm : a ∣ m) (hnm : n ≤ m) :
+    ∃ r, align n a = .ok r ∧ r ≤ m := by
+  obtain ⟨r, hr, ⟨k, hk⟩, h1, h2⟩ := align_spec n a ha hn
+  refine ⟨r, hr, ?_⟩
+  obtain ⟨j, hj⟩ := hm
+  subst hk hj
+  -- a*k < n + a ≤ a*j + a = a*(j+1) → k < j+1 → k ≤ j
+  have : a * k < a * (j + 1) := by rw [Int.mul_add]; omega
+  have : k < j + 1 := Int.lt_of_mul_lt_mul_left this (Int.le_of_lt ha)
+  exact Int.mul_le_mul_of_nonneg_left (by omega) (Int.le_of_lt ha)
+
+/-- range checks answer truthfully -/
+theorem checkRange_iff (x lo hi : Int) : check_range x lo hi = .ok (decide (lo ≤ x ∧ x ≤ hi)) := by
+  simp [check_range]
+
+theorem swap16_err (x : Int) : (x < 0 ∨ x > 0xFFFF) ↔ swap16 x = .error .spsdk := by
+  unfold swap16
+  by_cases h : x < 0 ∨ x > 65535
+  · simp [h]
+  · simp [h]
+
+/-- `swap16` exchanges the two bytes … -/
+theorem swap16_spec (x : Int) (h0 : 0 ≤ x) (h1 : x ≤ 0xFFFF) :
+    swap16 x = .ok (x % 256 * 256 + x / 256) := by
+  obtain ⟨k, rfl⟩ := Int.eq_ofNat_of_zero_le h0
+  have h : ¬ ((k : Int) < 0 ∨ (k : Int) > 65535) := by omega
+  have hk : k < 65536 := by omega
+  simp only [swap16, pyShl_nat, pyShr_nat, pyAnd_nat, pyOr_nat]
+  simp [h]
+  have := swap16_nat k hk
+  rw [this]
+  omega
+
+/-- … and is an involution on its domain. -/
+theorem swap16_invol (x : Int) (h0 : 0 ≤ x) (h1 : x ≤ 0xFFFF) :
+    ∃ y, swap16 x = .ok y ∧ swap16 y = .ok x := by
+  refine ⟨_, swap16_spec x h0 h1, ?_⟩
+  rw [swap16_spec _ (by omega) (by omega)]
+  congr 1
+  omega
+
+theorem sbAlign_spec (n : Int) (hn : 0 ≤ n) :
+    ∃ r, sbAlign n = .ok r ∧ (16 : Int) ∣ r ∧ n ≤ r ∧ r < n + 16 := by
+  have h1 : ¬ n < 0 := by omega
+  refine ⟨(n + 15) / 16 * 16, ?_, Int.dvd_mul_left _ _, ?_, ?_⟩
+  · simp [sbAlign, align, h1, pyFloorDiv, Int.fdiv_eq_ediv_of_nonneg]
+  all_goals omega
+
+/-- `to_num_blocks` accepts exactly multiples of 16 and then returns the quotient. -/
+theorem sbToNumBlocks_spec (n : Int) :
+    sbToNumBlocks n = if n % 16 = 0 then .ok (n / 16) else .error .spsdk := by
+  simp only [sbToNumBlocks, sbIsAligned, pyMod, pyFloorDiv]
+  rw [Int.fmod_eq_emod_of_nonneg _ (by omega), Int.fdiv_eq_ediv_of_nonneg _ (by omega)]
+  by_cases h : n % 16 = 0 <;> simp [h]
+
+/-- device id / group id are independent fields of the memory id -/
+theorem memId_roundtrip (d g : Int) (hd : 0 ≤ d ∧ d < 256) (hg : 0 ≤ g ∧ g < 16) :
+    ∃ m, getMemoryId d g = .ok m ∧ getDeviceId m = .ok d ∧ getGroupId m = .ok g := by
+  obtain ⟨d, rfl⟩ := Int.eq_ofNat_of_zero_le hd.1
+  obtain ⟨g, rfl⟩ := Int.eq_ofNat_of_zero_le hg.1
+  have := memId_nat d g (by omega) (by omega)
+  refine ⟨_, rfl, ?_, ?_⟩
+  · simp only [getDeviceId, pyShl_nat, pyShr_nat, pyAnd_nat, pyOr_nat]
+    exact congrArg (fun n : Nat => (Except.ok (n : Int) : PyRes Int)) this.1
+  · simp only [getGroupId, pyShl_nat, pyShr_nat, pyAnd_nat, pyOr_nat]
+    exact congrArg (fun n : Nat => (Except.ok (n : Int) : PyRes Int)) this.2
+
+/-! ## `value_to_int` against the documented grammar
+
+The grammar, written independently of the model (split on `_`, no state machine):
+after ASCII strip and lower-casing, `[0x|0b|0o] groups [suffix]` where `groups` are non-empty runs of
+base digits separated by single `_`, and `suffix` is at most three characters of `u`/`l`.
+(Recorded deviation inherited from Python's `int(·, 2)`: after a `0b` prefix the digits may carry a
+second `0b` and one `_` directly after it, e.g. `0b0b_1 = 1`.) -/
+
+def splitUs : List Char → List (List Char)
+  | [] => [[]]
+  | c :: cs =>
+    if c == '_' then [] :: splitUs cs
+    else match splitUs cs with
+      | g :: gs => (c :: g) :: gs
+      | [] => [[c]]
+
+def ofDigits (base : Nat) (ds : List Char) : Nat := ds.foldl (fun acc c => acc * base + digitVal c) 0
+
+/-- groups separated by single underscores, every group a non-empty run of digits `< base` -/
+def groupsValue (base : Nat) (s : List Char) : Option Nat :=
+  if (splitUs s).all (fun g => !g.isEmpty && g.all (fun c => digitVal c < base))
+  then some (ofDigits base (s.filter (· != '_'))) else none
+
+/-- the model's underscore state machine computes exactly the grammar's group value.
+    (Statement adjusted: the leading-underscore guard sits on the `digitsValue` side, where `pyIntOf`
+    has it.  The original `digitsValue base s false 0 = if s.head? = some '_' then none else groupsValue base s`
+    is false for `s = "_1"`: `digitsValue 10 "_1" false 0 = some 1`, the state machine started with
+    `prevUs = false` accepts a leading underscore, which is why `pyIntOf` tests it beforehand.) -/
+theorem digitsValue_eq_groups (base : Nat) (s : List Char) (hs : s ≠ []) :
+    (if s.head? = some '_' then none else digitsValue base s false 0) = groupsValue base s := by
+  simp only [groupsValue, ofDigits]
+  exact digitsValue_groups_gen splitUs rfl (fun _ _ => rfl) base s hs
+
+/-- Documented number grammar on an already stripped, lower-cased string. -/
+def numGrammar (t : List Char) : Option Nat :=
+  let parse (base : Nat) (body : List Char) : Option (Option Nat) :=   -- none = structure mismatch
+    let num := body.takeWhile isNumCh
+    let suf := body.dropWhile isNumCh
+    if num.isEmpty || suf.length > 3 || !suf.all isSufCh then none
+    else
+      let num' := if base == 2 then
+          (match num with
+           | '0' :: 'b' :: '_' :: r => r
+           | '0' :: 'b' :: r => r
+           | r => r) else num
+      if num'.isEmpty || num'.head? = some '_' then some none else some (groupsValue base num')
+  match t with
+  | '0' :: 'x' :: rest => (match parse 16 rest with | some r => r | none => (parse 10 t).join)
+  | '0' :: 'o' :: rest => (match parse 8 rest with | some r => r | none => (parse 10 t).join)
+  | '0' :: 'b' :: rest => (match parse 2 rest with | some r => r | none => (parse 10 t).join)
+  | _ => (parse 10 t).join
+
+/-- A string is accepted exactly when it matches the grammar, and then has its mathematical value. -/
+theorem valueToInt_eq_grammar (raw : List Char) (h : raw ≠ []) :
+    valueToInt raw = numGrammar ((strip raw).map lowerCh) := by
+  sorry
+
+/-- the empty string is refused -/
+theorem valueToInt_empty : valueToInt [] = none := by
+  sorry
+
+/-- plain decimal digit strings have their decimal value -/
+theorem valueToInt_decimal (ds : List Char) (h : ds ≠ []) (hd : ∀ c ∈ ds, '0' ≤ c ∧ c ≤ '9') :
+    valueToInt ds = some (ofDigits 10 ds) := by
+  sorry
+
+/-! ## integer ↔ bytes -/
+
+theorem beEnc_length (n v : Nat) : (beEnc n v).length = n := beEnc_length' n v
+
+/-- integer-to-bytes conversions round-trip -/
+theorem beDec_beEnc (n v : Nat) (h : v < 256 ^ n) : beDec (beEnc n v) = v := by
+  rw [beDec_beEnc_mod, Nat.mod_eq_of_lt h]
+
+theorem leDec_leEnc (n v : Nat) (h : v < 256 ^ n) : leDec (leEnc n v) = v := by
+  simp [leDec, leEnc, beDec_beEnc n v h]
+
+/-- `byteLen` is the minimal width -/
+theorem byteLen_min (v : Nat) : v < 256 ^ byteLen v ∧ (0 < v → 256 ^ (byteLen v - 1) ≤ v) :=
+  byteLenF_min v v (Nat.le_refl v)
+
+/-- the width picked without `byte_cnt`: minimal, or (align_to_2n) 1, 2, then the next multiple of 4 -/
+theorem getBytesCnt_default (v : Nat) (a2n : Bool) :
+    getBytesCnt v a2n 0 = .ok (
+      let m := max (byteLen v) 1
+      if a2n && m > 2 then (m + 3) / 4 * 4 else m) := by
+  by_cases hv : v = 0
+  · subst hv; simp [getBytesCnt, byteLen, byteLenF]
+  · have := byteLen_pos v hv
+    have hm : max (byteLen v) 1 = byteLen v := by omega
+    simp [getBytesCnt, hv, hm]
+
+/- Full-strength statement (FALSE, kept for reference):
+
+  theorem valueToBytes_roundtrip (v : Nat) (a2n le : Bool) (bc : Nat) :
+      (∃ b, valueToBytes v a2n bc le = .ok b ∧ (if le then leDec b else beDec b) = v ∧
+          (bc ≠ 0 → b.length = bc))
+      ∨ (valueToBytes v a2n bc le = .error .spsdk ∧ bc ≠ 0 ∧ 256 ^ bc ≤ v)
+
+  Counter-example: `v = 65536` (three bytes), `a2n = true`, `bc = 3`.  With `align_to_2n` the needed
+  width is first rounded up to 4 and *then* compared with `byte_cnt`, so the call is refused
+  (model and `value_to_bytes(65536, align_to_2n=True, byte_cnt=3)` alike: SPSDKValueError
+  "Value takes more bytes than required byte count 3 after align") although `65536 < 256 ^ 3`.
+  See the `example` after the partial theorem. -/
+
+/-- with an explicit `byte_cnt` the value either fits and gets that width, or is refused with an SPSDK error.
+    Extra hypothesis `hfit` (exactly the complement of the failing region): when `align_to_2n` rounding
+    applies (`byteLen v > 2`) and the value itself fits `bc`, the rounded width fits `bc` too.
+    It holds whenever `a2n = false`, or `bc ≤ 2`, or `bc % 4 = 0` (and trivially for `bc = 0`). -/
+theorem valueToBytes_roundtrip_partial (v : Nat) (a2n le : Bool) (bc : Nat)
+    (hfit : a2n = true → 2 < byteLen v → byteLen v ≤ bc → (byteLen v + 3) / 4 * 4 ≤ bc) :
+    (∃ b, valueToBytes v a2n bc le = .ok b ∧ (if le then leDec b else beDec b) = v ∧
+        (bc ≠ 0 → b.length = bc))
+    ∨ (valueToBytes v a2n bc le = .error .spsdk ∧ bc ≠ 0 ∧ 256 ^ bc ≤ v) := by
+  rcases getBytesCnt_cases v a2n bc hfit with ⟨n, h1, h2, h3⟩ | ⟨h1, h2, h3⟩
+  · left
+    refine ⟨_, by simp only [valueToBytes, h1]; rfl, ?_, ?_⟩
+    · cases le
+      · simpa using beDec_beEnc n v h2
+      · simpa using leDec_leEnc n v h2
+    · intro hb
+      cases le <;> simp [leEnc, beEnc_length, h3 hb]
+  · right
+    exact ⟨by simp only [valueToBytes, h1], h2, h3⟩
+
+/-- the hypothesis is implied by the parameter-only condition … -/
+example (v bc : Nat) (a2n : Bool) (h : a2n = false ∨ bc ≤ 2 ∨ bc % 4 = 0) :
+    a2n = true → 2 < byteLen v → byteLen v ≤ bc → (byteLen v + 3) / 4 * 4 ≤ bc := by
+  intro h1 h2 h3; rcases h with h | h | h
+  · simp [h] at h1
+  · omega
+  · omega
+
+/-- … and the excluded point really fails the full statement: refused although the value fits 3 bytes -/
+example : valueToBytes 65536 true 3 false = .error .spsdk ∧ 65536 < 256 ^ 3 ∧
+    ¬ (true = true → 2 < byteLen 65536 → byteLen 65536 ≤ 3 → (byteLen 65536 + 3) / 4 * 4 ≤ 3) := by decide
+
+/-! ## byte-order and bit-reversal helpers are involutions (error outside their domain) -/
+
+theorem swap32_invol (x : Int) (h0 : 0 ≤ x) (h1 : x ≤ 0xFFFFFFFF) :
+    ∃ y, swap32 x = .ok y ∧ swap32 y = .ok x := by
+  sorry
+
+theorem swap32_err (x : Int) : (x < 0 ∨ x > 0xFFFFFFFF) ↔ swap32 x = .error .spsdk := by
+  sorry
+
+theorem reverseBits_invol (x n : Nat) (h : x < 2 ^ n) (hn : 0 < n) :
+    reverseBits (reverseBits x n) n = x := by
+  sorry
+
+theorem reverseBytesInLongs_invol (b : Bytes) (h : b.length % 4 = 0) :
+    ∃ c, reverseBytesInLongs b = .ok c ∧ reverseBytesInLongs c = .ok b := by
+  sorry
+
+theorem reverseBytesInLongs_err (b : Bytes) : b.length % 4 ≠ 0 ↔ reverseBytesInLongs b = .error .spsdk := by
+  sorry
+
+theorem changeEndianness_invol (b : Bytes) (h : b.length = 1 ∨ b.length = 2 ∨ b.length % 4 = 0) :
+    ∃ c, changeEndianness b = .ok c ∧ changeEndianness c = .ok b := by
+  sorry
+
+theorem swapBytes_invol (b : Bytes) (h : b.length % 2 = 0) :
+    ∃ c, swapBytes b = .ok c ∧ swapBytes c = .ok b := by
+  sorry
+
+/-! ## padding helpers only ever append -/
+
+theorem alignBlock_spec (d : Bytes) (a : Int) (p : UInt8) (ha : 0 < a) :
+    ∃ r, alignBlock d a p = .ok r ∧ d <+: r ∧ (r.length : Int) % a = 0 ∧
+      d.length ≤ r.length ∧ (r.length : Int) < d.length + a ∧ ∀ x ∈ r.drop d.length, x = p := by
+  sorry
+
+theorem alignBlock_err (d : Bytes) (a : Int) (p : UInt8) : a ≤ 0 ↔ alignBlock d a p = .error .spsdk := by
+  sorry
+
+theorem extendBlock_spec (d : Bytes) (len : Int) (p : UInt8) :
+    extendBlock d len p =
+      if len < d.length then .error .spsdk else .ok (d ++ List.replicate (len.toNat - d.length) p) := by
+  sorry
+
+theorem extendBlock_length (d : Bytes) (len : Int) (p : UInt8) (h : (d.length : Int) ≤ len) :
+    ∃ r, extendBlock d len p = .ok r ∧ (r.length : Int) = len ∧ d <+: r := by
+  sorry
+
+theorem pattern_block_length (p : Pattern) (size : Nat) : (p.block size).length = size := by
+  sorry
+
+/-- BCD version numbers: the textual form parses back to the number -/
+theorem bcd_roundtrip (n : Nat) (h : bcdDigitOk n = true) :
+    bcdFromDigits (bcdToDigits n) = .ok n := by
+  sorry
+
+/-! ## non-vacuity: concrete non-trivial values meet the hypotheses / exercise the definitions -/
+
+example : align 13 8 = .ok 16 ∧ align 16 8 = .ok 16 ∧ align 5 0 = .error .spsdk := by decide
+example : check_range 3 0 3 = .ok true ∧ check_range (-5) 0 3 = .ok false ∧ check_range 4 0 3 = .ok false := by decide
+example : swap16 0x1234 = .ok 0x3412 := by decide
+example : valueToInt " 0x1F_0ul ".toList = some 0x1F0 ∧ valueToInt "0b".toList = none ∧
+          valueToInt "1__0".toList = none ∧ valueToInt "0b0b_1".toList = some 1 := by decide
+example : valueToBytes 70000 true 0 false = .ok [0, 1, 0x11, 0x70] := by decide
+example : reverseBits 0b0011 4 = 0b1100 := by decide
+example : bcdDigitOk 0x1234 = true ∧ bcdFromDigits (bcdToDigits 0x1234) = .ok 0x1234 := by decide
 
 end SpsdkVerif.C20
